@@ -223,21 +223,26 @@ public:
 
     X get_first_x() const { return first; }
 
-    std::pair<long double, long double> get_intersection() const {
+    /**
+     * Returns the intersection of the two extreme lines, with the abscissa expressed relative to @p origin. Near a large
+     * key a long double has no bits left for the fractional part of an absolute abscissa, a relative one keeps them.
+     */
+    std::pair<long double, long double> get_intersection(const X &origin = X()) const {
         auto &p0 = rectangle[0];
         auto &p1 = rectangle[1];
         auto &p2 = rectangle[2];
         auto &p3 = rectangle[3];
         auto slope1 = p2 - p0;
         auto slope2 = p3 - p1;
+        auto x0 = static_cast<long double>(SX(p0.x) - SX(origin));
 
         if (one_point() || slope1 == slope2)
-            return {p0.x, p0.y};
+            return {x0, p0.y};
 
         auto p0p1 = p1 - p0;
         auto a = slope1.dx * slope2.dy - slope1.dy * slope2.dx;
         auto b = (p0p1.dx * slope2.dy - p0p1.dy * slope2.dx) / static_cast<long double>(a);
-        auto i_x = p0.x + b * slope1.dx;
+        auto i_x = x0 + b * slope1.dx;
         auto i_y = p0.y + b * slope1.dy;
         return {i_x, i_y};
     }
@@ -255,10 +260,10 @@ public:
             return {static_cast<long double>(slope), intercept};
         }
 
-        auto[i_x, i_y] = get_intersection();
+        auto[i_x, i_y] = get_intersection(origin);
         auto[min_slope, max_slope] = get_slope_range();
         auto slope = (min_slope + max_slope) / 2.;
-        auto intercept = i_y - (i_x - origin) * slope;
+        auto intercept = i_y - i_x * slope;
         return {slope, intercept};
     }
 
